@@ -660,6 +660,8 @@ impl PtraceDumper {
         // Zero memory that is below the current stack pointer.
         let offset =
             (sp_offset + std::mem::size_of::<usize>() - 1) & !(std::mem::size_of::<usize>() - 1);
+        // The copy may end before the stack pointer: everything is below it then.
+        let offset = offset.min(stack_copy.len());
         for x in &mut stack_copy[0..offset] {
             *x = 0;
         }
